@@ -193,7 +193,8 @@ def explore_program(args):
 
     def run_once(choose):
         return execute(prog, choose, line_level)
-    ex = sched.Explorer(run_once, bound=bound, max_runs=max_runs, by_preemptions=bool(prog.get("coarse")), seed=common.seed())
+    ex = sched.Explorer(run_once, bound=bound, max_runs=max_runs, by_preemptions=bool(prog.get("coarse")), seed=common.seed(),
+                        extra_random=0 if prog.get("coarse") else max(20, max_runs // 2))
     n = 0
     for res, choices in ex.explore():
         n += 1
